@@ -45,7 +45,7 @@ _RNG = {'a': (-1.0, 1.0), 'b': (-3.0, 3.0), 'c': (-5.0, 5.0), 'd': (-30.0, 30.0)
 
 
 @traced('C03Gen', 'incr_readings',
-        [('dt', (0.005, 0.1))] + [(n, _RNG[n[0]]) for n in _V5], fast=('dt',), tol=1e-13)
+        [('dt', (0.005, 0.1))] + [(n, _RNG[n[0]]) for n in _V5], fast=('dt',), tol=1e-11)
 def _(V, A):
     vec = lambda p: A([[V(f'{p}{i}') for i in range(3)]])
     gyros, accels = sim._compute_increment_readings(
@@ -180,7 +180,7 @@ def _call_generate_imu(V, A, sensor_type, rot_coef=None):
     return traj, imu
 
 
-@traced('C03Gen', 'imu_rate', _PT, tol=1e-6, domain=_domain, nval=40)
+@traced('C03Gen', 'imu_rate', _PT, tol=1e-4, domain=_domain, nval=40)
 def _(V, A):
     traj, imu = _call_generate_imu(V, A, 'rate')
     acc = imu[['accel_x', 'accel_y', 'accel_z']].values
@@ -199,7 +199,7 @@ def _stub_incr(dt, a, b, c, d, e):
     return g, f
 
 
-@traced('C03Gen', 'imu_incr', _PT + _ROT, tol=1e-6, domain=_domain, nval=40,
+@traced('C03Gen', 'imu_incr', _PT + _ROT, tol=1e-4, domain=_domain, nval=40,
         extra=[(sim, '_compute_increment_readings', _stub_incr)])
 def _(V, A):
     coef = A([[[V(f'r{v}{i}') for i in range(3)]] for v in 'cba'] + [[[0.0, 0.0, 0.0]]])
